@@ -41,7 +41,7 @@ Verdict(c, o) ==
                          ELSE IF o.degba # o.deg THEN "AngleNotSymmetric" ELSE "ok"
     [] c.fn = "member" ->
          LET proper == c.r \in O24 IN
-         IF c.what = "plain" THEN
+         IF c.what \in {"plain", "f32"} THEN      \* f32: a generic rotation times c.r, stored with single precision (orthonormal to 1e-7 only): still a group element
             (IF o.so3 = proper /\ o.se3 = proper /\ o.sim3 = proper THEN "ok" ELSE "MembershipWrong")
          ELSE IF c.what = "scaled" THEN          \* 2 R: not SO(3)/SE(3); Sim(3) iff R proper
             (IF ~o.so3 /\ ~o.se3 /\ o.sim3 = proper THEN "ok" ELSE "MembershipWrong")
